@@ -119,13 +119,34 @@ func (p *Program) resolveTypeExpr(e ast.Expr, pkg *types.Package) (types.Type, e
 // findPkgByName resolves a package qualifier: imports of pkg by name first, then any loaded package.
 func (p *Program) findPkgByName(name string, pkg *types.Package) *types.Package {
 	if pkg != nil {
+		// import aliases used by the package's own source files come first
+		if path, ok := p.aliases[pkg.Path()][name]; ok {
+			if tp, ok := p.allPkgs[path]; ok {
+				return tp
+			}
+		}
 		if pkg.Name() == name {
 			return pkg
 		}
+		aliased := map[string]bool{}
+		for _, path := range p.aliases[pkg.Path()] {
+			aliased[path] = true
+		}
+		var fallback *types.Package
 		for _, imp := range pkg.Imports() {
 			if imp.Name() == name {
+				if aliased[imp.Path()] {
+					// imported under another name somewhere in this package: less likely the one meant
+					if fallback == nil {
+						fallback = imp
+					}
+					continue
+				}
 				return imp
 			}
+		}
+		if fallback != nil {
+			return fallback
 		}
 	}
 	var found *types.Package
@@ -371,7 +392,9 @@ func (x *X) specIdent(env *SpecEnv, se *SpecExpr, id *ast.Ident) Value {
 	case "nil":
 		return Value{T: types.Typ[types.UntypedNil]}
 	case "Store":
-		return scalar(specType("Store"), x.c.heap(env.st, "$g!Store", SArr("Key", "OptBytes")))
+		return scalar(specType("Store"), x.c.heap(env.st, "$g!Store", SArr("KeyT", "OptBytes")))
+	case "None":
+		return scalar(specType("OptBytes"), Lit("None", "OptBytes"))
 	}
 	if v, ok := env.lookupName(id.Name); ok {
 		return v
@@ -518,6 +541,43 @@ func (x *X) specCall(env *SpecEnv, se *SpecExpr, call *ast.CallExpr) Value {
 	case "ref":
 		v := arg(0)
 		return scalar(tUint64, v.C[0])
+	case "K0", "K1", "K2", "K3", "K4", "K5":
+		// storage-key constructors: contract address + up to five byte-string fields
+		n := int(name[1] - '0')
+		if len(call.Args) != n+1 {
+			fail("%s takes %d arguments", name, n+1)
+		}
+		addr := arg(0)
+		if len(addr.C) != 1 || addr.C[0].Sort != SBV(160) {
+			fail("%s: first argument must be a contract address", name)
+		}
+		ts := []*Term{addr.C[0]}
+		for i := 1; i <= n; i++ {
+			ts = append(ts, x.bytesOfValue(env.st, arg(i)).S())
+		}
+		return scalar(specType("KeyT"), App(name, "KeyT", ts...))
+	case "KRaw":
+		return scalar(specType("KeyT"), App("KRaw", "KeyT", x.bytesOfValue(env.st, arg(0)).S()))
+	case "keyOf":
+		return scalar(specType("KeyT"), App("keyOf", "KeyT", x.bytesOfValue(env.st, arg(0)).S()))
+	case "u64le", "u32le":
+		// little-endian byte string of an integer: injective (ground instances of the inverse law
+		// are added for every term built, which keeps the queries quantifier-free)
+		w := 64
+		if name == "u32le" {
+			w = 32
+		}
+		v := arg(0)
+		if isUntyped(v) {
+			v = x.typed(v, tUint64)
+		}
+		t := Resize(v.S(), w, false)
+		app := App(name, SBytes, t)
+		if !t.Bound {
+			x.c.assume(TTrue, Eq(App(name+"_inv", SBV(w), app), t))
+			x.c.assume(TTrue, Eq(App("blen", SBV(64), app), BVInt(int64(w/8), 64)))
+		}
+		return scalar(specType("Bytes"), app)
 	case "has":
 		// has(m, k): key k is present in Go map m
 		m, k := arg(0), arg(1)
@@ -623,6 +683,14 @@ func (x *X) coerceToSort(v Value, s Sort) *Term {
 func (x *X) applySpecFunc(env *SpecEnv, sf *SpecFunc, args []Value) Value {
 	if len(args) != len(sf.Params) {
 		fail("spec function %s: %d args, want %d", sf.Name, len(args), len(sf.Params))
+	}
+	if sf.PkgPath != "" {
+		// identifiers of a spec function resolve in the package that declares it
+		if tp, ok := x.prog.allPkgs[sf.PkgPath]; ok && tp != env.pkg {
+			ne := *env
+			ne.pkg = tp
+			env = &ne
+		}
 	}
 	rt, err := x.prog.resolveTypeText(sf.Ret, env.pkg)
 	if err != nil {
